@@ -870,6 +870,13 @@ def uf_app(name, argsym, mk_axioms, rf=None):
                 else:
                     nf = rf2
                 return Sym(NEG_RULE[name](r2), s=_sf(NEG_SH[name], rsh2), f=nf)
+    # relational hints declared by two-run harnesses (C16): each is a true identity of the
+    # mathematical function, applied only when its side condition is established syntactically
+    for hint in ENG.opts.get('hints', ()):
+        h = hint(name, argsym, arg, lst)
+        if h is not None:
+            ENG.reuse += 1
+            return h
     res = ENG.newvar(name)
     af = argsym.f
     if rf is None:
@@ -937,6 +944,47 @@ def related(a, a2):
         return True
     va, vb = _derived_vars(a), _derived_vars(a2)
     return (not va) or (not vb) or bool(va & vb)
+
+
+def hint_sqrt_scale(kname):
+    """sqrt(k^2 * a2) = k * sqrt(a2) for the declared scale k > 0"""
+    def hint(name, argsym, arg, lst):
+        if name != 'sqrt':
+            return None
+        k = z3.Real(kname)
+        ksh = tuple(float(e[kname]) for e in ENG.env)
+        for (a2, r2, sh2, rsh2, rf2) in lst:
+            if close(argsym.s, tuple(x * kk * kk for x, kk in zip(sh2, ksh))) and is_zero(som(arg - k * k * a2)):
+                kf = INPUT_FACTS.get(kname, TOP)
+                return Sym(k * r2, s=tuple(kk * x for kk, x in zip(ksh, rsh2)), f=f_mul(kf, rf2))
+        return None
+    return hint
+
+
+def hint_exp_aligned(state):
+    """exp(a) = exp(a2) * exp(a - a2) against the aligned application of the other run:
+    state = {'mark': number of exp applications created by the first run, 'j': counter}"""
+    def hint(name, argsym, arg, lst):
+        if name != 'exp' or state.get('mark') is None or state.get('busy'):
+            return None
+        for (ac, symc) in state.setdefault('cache', []):
+            if close(argsym.s, symc[1]) and is_zero(som(arg - ac)):
+                return symc[0]
+        j = state['j']
+        if j >= state['mark'] or j >= len(lst):
+            return None
+        a2, r2, sh2, rsh2, rf2 = lst[j]
+        state['j'] = j + 1
+        d = Sym(som(arg - a2), s=tuple(x - y for x, y in zip(argsym.s, sh2)))
+        state['busy'] = True
+        try:
+            e = uf_app('exp', d, ax_exp)
+        finally:
+            state['busy'] = False
+        out = Sym(r2 * e.t, s=tuple(x * y for x, y in zip(rsh2, e.s)), f=f_mul(rf2, e.f))
+        state['cache'].append((arg, (out, argsym.s)))
+        return out
+    return hint
 
 
 def ax_sqrt(a, r, lst):
